@@ -15,7 +15,7 @@ import os
 import z3
 
 from . import sym
-from .sym import (Arr, Mat, Obj, DF, Havoc, Opt, TS, TD, Unsupported, PyRaise, lift, ite, binop, cmpop,
+from .sym import (Arr, Mat, Obj, DF, Havoc, Opt, TS, TD, SymMap, Unsupported, PyRaise, lift, ite, binop, cmpop,
                   concrete_bool, concrete_int, to_bool, is_z3, fresh_name)
 
 
@@ -221,12 +221,22 @@ def seg_len(kind, s):
     if kind == 'arr':
         return s.n
     if kind == 'str':
-        return s.n if isinstance(s, RepStr) else len(s)
+        return s.n if isinstance(s, (RepStr, FnStr)) else len(s)
     if kind == 'list':
         return len(s)
     if kind == 'df':
         return s.n if s.n is not None else 0
     raise Unsupported('seg_len')
+
+
+class FnStr:
+    """an abstract string of n letters given by a function position -> letter (e.g. an asset's cType)"""
+
+    def __init__(self, n, f):
+        self.n, self.f = n, f
+
+    def __repr__(self):
+        return f"FnStr(n={self.n})"
 
 
 class RepStr:
@@ -326,6 +336,17 @@ class Interp:
         s.add(*ground)
         return s.check() != z3.unsat
 
+    def resolve_bool(self, c):
+        """True / False if the path condition decides c (quick check), else None"""
+        try:
+            if not self.feasible(z3.Not(c)):
+                return True
+            if not self.feasible(c):
+                return False
+        except z3.Z3Exception:
+            pass
+        return None
+
     def decide(self, cond):
         if isinstance(cond, Havoc):
             b = z3.Bool(fresh_name('havoc!cond'))
@@ -372,6 +393,9 @@ class Interp:
         except _Return as r:
             return r.value
         finally:
+            if self.depth == 1:
+                self.last_env_values = list(env.values())      # locals of the function under contract (for its post)
+                self.last_env = dict(env)
             self.depth -= 1
             self.cur_mod = old_mod
 
@@ -500,7 +524,12 @@ class Interp:
         pass
 
     def st_Import(self, st, frame):
-        pass
+        from .libmodel import MODULES
+        for al in st.names:
+            m = MODULES.get(al.name)
+            if m is None:
+                raise Unsupported('import ' + al.name)
+            frame['env'][al.asname or al.name.split('.')[0]] = m
 
     def st_ImportFrom(self, st, frame):
         pass
@@ -720,9 +749,9 @@ class Interp:
             if opname == 'Add' and isinstance(b, Seg) and isinstance(a, str) and a == '':
                 return b
             raise Unsupported('operation on accumulator')
-        if isinstance(a, RepStr) or isinstance(b, RepStr) or (isinstance(a, str) and is_z3(b)) or (isinstance(b, str) and is_z3(a) and b and opname == 'Mult'):
+        if isinstance(a, (RepStr, FnStr)) or isinstance(b, (RepStr, FnStr)) or (isinstance(a, str) and is_z3(b)) or (isinstance(b, str) and is_z3(a) and b and opname == 'Mult'):
             return self.str_op(opname, a, b)
-        if isinstance(a, str) and isinstance(b, (Seg, RepStr)):
+        if isinstance(a, str) and isinstance(b, (Seg, RepStr, FnStr)):
             return self.str_op(opname, a, b)
         return binop(opname, a, b)
 
@@ -836,6 +865,13 @@ class Interp:
             return o
         if isinstance(idx, Havoc):
             return idx
+        if isinstance(o, SymMap):
+            hk = o.has_key(idx, self.resolve_bool)
+            if hk is False:
+                raise PyRaise('KeyError', repr(idx))
+            if hk is not True:
+                self.require(f'key:{what}', hk, kind='index')
+            return o.lookup(idx, self.resolve_bool)
         if isinstance(o, dict):
             if is_z3(idx) or isinstance(idx, (Arr, Obj)):
                 raise Unsupported('symbolic dict key')
@@ -932,6 +968,13 @@ class Interp:
 
     def store_subscript(self, o, idx, v, node):
         what = ast.unparse(node)[:60]
+        if isinstance(o, SymMap):
+            if self.guards or self.loops:
+                raise Unsupported('dict store under guard')
+            if id(o) in self.protect:
+                self.require(f'frame:{self.protect[id(o)]}[...]', z3.BoolVal(False), kind='frame')
+            o.store(idx, v)
+            return
         if isinstance(o, dict):
             if is_z3(idx) or isinstance(idx, (Arr, Obj)):
                 raise Unsupported('symbolic dict key store')
@@ -967,6 +1010,20 @@ class Interp:
             o.setitem(self, idx, v)
             return
         raise Unsupported(f'subscript store on {type(o).__name__}')
+
+    def _affine_inverse(self, idx):
+        """if the integer array idx is e + arange(n) (element p = e + p with e free of p) return e, else None"""
+        p = z3.Int(fresh_name('aff'))
+        try:
+            t = lift(idx.f(p))
+        except Unsupported:
+            return None
+        if not z3.is_int(t):
+            return None
+        e = z3.simplify(t - p)
+        if p.decl().name() in free_consts(e):
+            return None
+        return e
 
     def _outer(self, obj):
         return self.loops and getattr(obj, 'birth', 0) < len(self.loops)
@@ -1011,6 +1068,12 @@ class Interp:
                 else:
                     src = lambda i: v
                 o.f = lambda i, _f_idx=idx.f: ite(to_bool(_f_idx(i)) if g is None else z3.And(g, to_bool(_f_idx(i))), src(i), oldf(i))
+            elif self._affine_inverse(idx) is not None:
+                e_off = self._affine_inverse(idx)
+                self.require(f'index:{what}', z3.Implies(lift(idx.n) > 0, z3.And(e_off >= 0, e_off + lift(idx.n) <= lift(o.n))), kind='index')
+                hit = lambda i: z3.And(lift(i) - e_off >= 0, lift(i) - e_off < lift(idx.n))
+                src = (lambda i, _f=v.f: _f(lift(i) - e_off)) if isinstance(v, Arr) else (lambda i: v)
+                o.f = lambda i: ite(hit(i) if g is None else z3.And(g, hit(i)), src(i), oldf(i))
             else:
                 # scatter a[idx] = v : idx assumed duplicate-free (obligation), inverse via skolem function
                 inv = z3.Function(fresh_name('inv'), z3.IntSort(), z3.IntSort())
@@ -1071,6 +1134,12 @@ class Interp:
                     cnt, sel, rank = sym.COMP.get(c)
                     ccond = lambda j, _f_c=c.f: to_bool(_f_c(j))
                     cmap = lambda j: rank(lift(j))
+                elif self._affine_inverse(c) is not None:
+                    # index array of the form e + arange(n): the inverse is j - e (no axiom needed)
+                    e_off = self._affine_inverse(c)
+                    ccond = lambda j: z3.And(lift(j) - e_off >= 0, lift(j) - e_off < lift(c.n))
+                    cmap = lambda j: lift(j) - e_off
+                    self.require(f'index:{what}', z3.Implies(lift(c.n) > 0, z3.And(e_off >= 0, e_off + lift(c.n) <= lift(o.nc))), kind='index')
                 else:
                     inv = z3.Function(fresh_name('inv'), z3.IntSort(), z3.IntSort())
                     p, q = z3.Int(fresh_name('p')), z3.Int(fresh_name('q'))
@@ -1147,6 +1216,8 @@ class Interp:
         self.symbolic_for(st, it, frame)
 
     def concrete_iter(self, it):
+        if isinstance(it, SymMap):
+            return it.keys()
         if isinstance(it, (list, tuple, range, dict)):
             return list(it)
         if isinstance(it, SymRange):
@@ -1286,7 +1357,7 @@ class Interp:
             return as_seg('arr' if cur.kind != 'list' else 'list_arr', cur) if cur.kind != 'list' else None
         if isinstance(cur, str):
             return as_seg('str', cur)
-        if isinstance(cur, RepStr):
+        if isinstance(cur, (RepStr, FnStr)):
             return as_seg('str', cur)
         if isinstance(cur, list):
             return Seg('list', [list(cur)] if cur else [])
@@ -1318,7 +1389,7 @@ class Interp:
             if not isinstance(item, Arr):
                 item = Arr(1, lambda i, v=item: v)
         elif kind == 'str':
-            if not isinstance(item, (str, RepStr)):
+            if not isinstance(item, (str, RepStr, FnStr)):
                 raise Unsupported('str accumulate non-str')
             if isinstance(item, str) and item == '':
                 return acc
@@ -1564,13 +1635,11 @@ class Interp:
         return [self.ev(x, frame) for x in e.elts]
 
     def ev_Dict(self, e, frame):
-        out = {}
-        for k, v in zip(e.keys, e.values):
-            kk = self.ev(k, frame)
-            if is_z3(kk):
-                raise Unsupported('symbolic dict key')
-            out[kk] = self.ev(v, frame)
-        return out
+        pairs = [(self.ev(k, frame), self.ev(v, frame)) for k, v in zip(e.keys, e.values)]
+        if not pairs or any(is_z3(k) for k, _ in pairs):
+            # an empty literal may later receive symbolic keys (asset names): association list from the start
+            return SymMap(pairs)
+        return dict(pairs)
 
     def ev_Set(self, e, frame):
         return set(self.ev(x, frame) for x in e.elts)
@@ -1588,6 +1657,9 @@ class Interp:
                 return not t
             return z3.Not(t)
         if isinstance(e.op, ast.USub):
+            from .libmodel import Cvx
+            if isinstance(v, Cvx):
+                return Cvx('neg', v)
             return sym.neg(v)
         if isinstance(e.op, ast.UAdd):
             return v
@@ -1599,6 +1671,9 @@ class Interp:
         a = self.ev(e.left, frame)
         b = self.ev(e.right, frame)
         opname = type(e.op).__name__
+        from .libmodel import Cvx, cvx_binop
+        if isinstance(a, Cvx) or isinstance(b, Cvx):
+            return cvx_binop(opname, a, b)
         if opname == 'MatMult':
             return self.model.matmul(self, a, b)
         return self.apply_bin(opname, a, b)
@@ -1657,6 +1732,9 @@ class Interp:
             return a
         if isinstance(b, Havoc):
             return b
+        from .libmodel import Cvx, cvx_cmp
+        if isinstance(a, Cvx) or isinstance(b, Cvx):
+            return cvx_cmp(type(op).__name__, a, b)
         if isinstance(op, (ast.Is, ast.IsNot)):
             if b is None or a is None:
                 other = a if b is None else b
@@ -1680,6 +1758,8 @@ class Interp:
     def contains(self, container, item):
         if isinstance(container, Havoc):
             return container
+        if isinstance(container, SymMap):
+            return container.has_key(item)
         if isinstance(container, dict):
             if is_z3(item):
                 raise Unsupported('symbolic key membership')
@@ -1732,6 +1812,10 @@ class Interp:
         it = self.ev(gen.iter, frame)
         if isinstance(it, Havoc):
             return it
+        if isinstance(it, (FnStr, RepStr)) or (isinstance(it, Seg) and it.kind == 'str') or isinstance(it, str) and False:
+            from . import spec as _S
+            src = it
+            it = Arr(_S.str_len(src), lambda i, src=src: _S.char_at(src, i), kind='list')
         conc = self.concrete_iter(it)
         env = frame['env']
         if conc is not None:
